@@ -40,6 +40,10 @@ func workloads() map[string]families.Workload {
 				wlCache[w.Name] = w
 			}
 		}
+		// pages of 2.6 MB (in the middle of the file and as its very last page)
+		for _, w := range families.BigPageWorkloads(families.Codecs3()) {
+			wlCache[w.Name] = w
+		}
 	}
 	return wlCache
 }
